@@ -9,11 +9,30 @@ CFG = {
                   "no success response, no request, no pair/selection/connection-state/liveness change (relative to the state after "
                   "the permitted peer-reflexive discovery, itself characterised exactly). (3) For every state and event the role "
                   "changes only through this branch or an effective start; the tie-breaker never changes; roles are stable along "
-                  "every event sequence without those. A sample of two random tie-breaker pairs under one schedule (the existing "
-                  "test) cannot pin the comparison direction over 2^128 inputs; the theorem does.",
-    "level_note": "Single-agent clauses are proved here. The two-agent consequence (two agents started in the same role end in "
-                  "opposite roles under every message ordering, then C01) is proved in IceProps on IceModel.Sys2 by another module "
-                  "and is not claimed by these theorems. The model is tied to the code by the differential correspondence of "
+                  "every event sequence without those. (4) Two-agent consequence, on the closed system Sys2 (two AgentCore agents + "
+                  "datagram hub with NAT, one-way blocks, loss, duplication), for ALL initial states with distinct tie-breakers and "
+                  "ALL schedules (arbitrary lists of API calls of both agents incl. restart/close/late start, deliveries in any "
+                  "order, duplications, drops, clock advances), W = holder of the larger tie-breaker, L = the other: every in-flight "
+                  "message with a role attribute carries its sender's tie-breaker (invariant); once W is started and controlling it "
+                  "stays controlling for ever, once L is started and controlled it stays controlled for ever (orientation stable); "
+                  "whenever an agent processes an authenticated request carrying its own role it ends in its assigned role whatever "
+                  "its role was before; from any reachable state with both agents started in the SAME role, once the agent in the "
+                  "wrong role has processed one such request the roles are opposite (W controlling) and remain so under every "
+                  "continuation (absorbing); from a same-role state the wrongly oriented pair (L controlling, W controlled) is "
+                  "unreachable. A sample of two random tie-breaker pairs under one schedule (the existing "
+                  "test) cannot pin the comparison direction over 2^128 inputs or the message orderings; the theorems do.",
+    "level_note": "Single-agent clauses and the SAFETY/ABSORPTION part of the two-agent consequence are proved (IceProofs/Sys2C05*.lean, "
+                  "restated in IceProps/C05.lean). What is not a theorem is 'eventually': that the agent in the wrong role does "
+                  "process an authenticated same-role request needs fair delivery (the peer keeps sending checks and the network "
+                  "eventually delivers one); on every generated fair suffix this is checked by the spec monitor at 'mark fairend' "
+                  "(final roles opposite, then C01's clauses). The statements about L (smaller tie-breaker) carry the explicit "
+                  "decidable schedule hypothesis NoLoopbackCreds: L is never handed one of its own local passwords as remote "
+                  "password. Without it the statement is false in the model AND in the code (witness theorem "
+                  "C05_orientation_stable_needs_NoLoopbackCreds_witness, replayed on the real agent through the harness, "
+                  "notes/C05sys-selfdelivery.ops: a controlled agent that authenticates its own hairpinned ICE-CONTROLLED request "
+                  "compares own < own and switches to controlling); this needs an agent configured as its own peer (or both agents "
+                  "sharing one password plus a hairpin) and is recorded as an observation, not a violation of the property text. "
+                  "W's half needs no hypothesis. The model is tied to the code by the differential correspondence of "
                   "component 'agent' (real pion/ice agent under synctest vs AgentCore.step, every operation of every generated "
                   "session compared) and, for the decision, by translation (T). Trusted: Lean kernel (axioms propext / "
                   "Classical.choice / Quot.sound), the gotolean translator and its effect table (a.sendSTUN -> send487, "
@@ -31,5 +50,8 @@ CFG = {
     "assumptions": ["theorems about handleInbound are stated relative to the state after source resolution (a known remote, or an "
                     "accepted peer-reflexive discovery which only appends the candidate and fresh Waiting pairs)",
                     "the timer tick that may follow an inbound message in the same step (runForced) is a separate transition; "
-                    "it is covered by C05_switch_only_by_conflict (it never changes the role)"],
+                    "it is covered by C05_switch_only_by_conflict (it never changes the role)",
+                    "two-agent theorems: closed system (agents receive traffic only through the hub, no third party forges "
+                    "messages), Sys.Init (nothing in flight initially), distinct tie-breakers, and for the agent with the smaller "
+                    "tie-breaker NoLoopbackCreds (its remote passwords along the schedule are disjoint from its local passwords)"],
 }
